@@ -12,7 +12,9 @@ Spec: specs/Accel.tla (+ AccelTrace.tla).  Binding:
      code either shows the modelled defect (VIOLATION / KNOWN-FINDING) or it does not have it;
   T  random histories beyond the exhaustive bound (more commits, longer) are executed, recorded and
      validated by TLC against AccelTrace: every recorded transition must be a step of Accel and every
-     recorded answer must be the one the specification defines.
+     recorded answer must be the one the specification defines;
+  S  AccelRefStep: delete / set / pack-refs of one ref as the sequence of visible file-system mutations the real
+     entry points perform, with a reader or a crash between any two (harness/c14_refstep.py).
 """
 from __future__ import annotations
 
@@ -34,6 +36,7 @@ logging.getLogger().setLevel(logging.ERROR)
 from .. import c14_exec as X     # noqa: E402
 from .. import c14_replay as RP  # noqa: E402
 from .. import c14_trace as TR   # noqa: E402
+from .. import c14_refstep as RS # noqa: E402
 from .. import tlaval            # noqa: E402
 
 DEFECTS = {
@@ -557,6 +560,28 @@ def shallow_clone_layout(ctx):
         shutil.rmtree(root, ignore_errors=True)
 
 
+def ref_steps(ctx, only=None):
+    """Ref storage at file-system granularity (specs/AccelRefStep.tla): delete / set / pack-refs as sequences of
+    visible mutations with a reader or a crash between any two.  TLC checks Atomic and Final on the design, must
+    find Atomic violated with either ordering guard off, and its state graph drives the real entry points."""
+    d = ctx.tmpdir("rs")
+    dot = os.path.join(d, "g.dot")
+    res = tlc.run("AccelRefStep.tla", "AccelRefStep_mc.cfg", workers=1, timeout=120, dump_dot=dot)
+    ctx.add_tlc("AccelRefStep_mc (delete/set/pack-refs step by step with crashes: Atomic, Final)", res)
+    if only is None:
+        for name, what in (("delorder", "a delete unlinks the loose file before it drops the packed entry"),
+                           ("packorder", "pack-refs prunes the loose file before packed-refs is in place")):
+            r = tlc.run("AccelRefStep.tla", f"AccelRefStep_d_{name}.cfg", workers=1, timeout=120)
+            ctx.add_tlc(f"AccelRefStep_d_{name} (one guard off: {what}; expects Atomic)", r, require_ok=False)
+            if "Atomic" not in r.violated:
+                raise MachineryError(f"AccelRefStep_d_{name}.cfg: TLC did not find Atomic violated\n{r.output[-1500:]}")
+    g = tlc.load_dot(dot)
+    ncases, nruns = RS.run_all(ctx, g, only=only)
+    ctx.log(f"ref steps: {len(g.nodes)} states, {len(g.init)} initial (storage x operation); {ncases} cases "
+            f"(x entry point x packed-refs flavour), {nruns} executions (one observed run + one per crash point)")
+    shutil.rmtree(d, ignore_errors=True)
+
+
 # --------------------------------------------------------------------------- entry
 def run(ctx):
     # load the code under test once, before any worker is forked: every worker then runs the same snapshot of it
@@ -590,6 +615,7 @@ def run(ctx):
                             every_edge=True)
     large_offset_layout(ctx)
     shallow_clone_layout(ctx)
+    ref_steps(ctx)
     defect_replays(ctx, futs)
     wtraces, wmeta = walks(ctx, ctx.pick(28, 600), ctx.pick(12, 16), ctx.pick(5, 6))
     t1 = os.times()
@@ -632,6 +658,11 @@ def replay(ctx, path):
     ctx.known = []
     if obj.get("kind") in ("large-offset-layout", "shallow-clone-layout"):
         (large_offset_layout if obj["kind"] == "large-offset-layout" else shallow_clone_layout)(ctx)
+        print("result:", "VIOLATION reproduced" if ctx.violations else "no violation on the current tree")
+        return 1 if ctx.violations else 0
+    if obj.get("kind") == "refstep":
+        c = obj["case"]
+        ref_steps(ctx, only=[c[0], c[1], c[2], c[3], c[4]])
         print("result:", "VIOLATION reproduced" if ctx.violations else "no violation on the current tree")
         return 1 if ctx.violations else 0
     if not labels or not models:
